@@ -1003,6 +1003,8 @@ def shrink_candidates(inp: Dict[str, Any]) -> List[Dict[str, Any]]:
     for i in range(len(mds)):
         out.append({**inp, "mds": mds[:i] + mds[i + 1:]})
     for i, m in enumerate(mds):
+        if m.get("metadata_type") != "inject_code":
+            continue
         for k in [k for k in m if k not in ("metadata_type", "name")]:
             m2 = {a: b for a, b in m.items() if a != k}
             out.append({**inp, "mds": mds[:i] + [m2] + mds[i + 1:]})
@@ -1010,6 +1012,8 @@ def shrink_candidates(inp: Dict[str, Any]) -> List[Dict[str, Any]]:
                 for j in range(len(m[k])):
                     out.append({**inp, "mds": mds[:i] + [{**m, k: m[k][:j] + m[k][j + 1:]}] + mds[i + 1:]})
     for i, m in enumerate(mds):
+        if m.get("metadata_type") != "inject_code":
+            continue
         for k in [k for k in m if k not in ("metadata_type", "name", "depends_on")]:
             if isinstance(m[k], list):
                 for j, l in enumerate(m[k]):
